@@ -544,7 +544,9 @@ def _rule_sweep_closed(prog, chk, R, gc, markObject, objfields, entry):
         if i >= pos_sel:
             break
         pol_ = stop_polarity(s['c']) if s.get('k') == 'if' else None
-        if pol_ is None:
+        if s.get('k') == 'block':
+            units.append((list(s['body']), 'both', i))      # a bare block: its statements, unconditional
+        elif pol_ is None:
             units.append(([s], 'both', i))
         else:
             units.append((body_list(s), 'end' if pol_ else 'mid', i))
